@@ -9,6 +9,9 @@ package main
 //   HAProxyUpdate and the disk is what is found in haproxy.cfg / haproxy5-backendNNN.cfg.
 //
 // case line: C05 <api|e2e> <n> <shard of name 0>.<shard of name 1>... <op>,<op>,... => <obs>;<obs>;...
+//
+// fx mode (c05faults.go): ingresses (host with TLS + backend with per-path ACLs) and a tcp service through a
+//   real Instance with write faults injected between successful updates; every file against a fresh instance.
 
 import (
 	"context"
@@ -31,6 +34,10 @@ import (
 func init() {
 	props["C05"] = runC05
 	replayers["C05"] = func(c *ctx, a []string) {
+		if len(a) == 5 && a[0] == "fx" {
+			c05fxReplay(c, a)
+			return
+		}
 		if len(a) != 4 {
 			return
 		}
@@ -1011,4 +1018,5 @@ func runC05(c *ctx) {
 		nMaps = 5000
 	}
 	c05mapsRandom(c, gen.New(c.seed).Fork(), nMaps)
+	runC05fx(c) // histories with failed updates (c05faults.go)
 }
